@@ -13,7 +13,7 @@
 (*                                                                         *)
 (* State space: start -> unit = (shape, variant) -> cx = context -> row = (side, *)
 (* whole?, path index).  Every row state is one scenario; the "invariant"  *)
-(* Emit writes it as one JSON line (file per unit and context).            *)
+(* Emit writes it as one short JSON line (one file per unit).              *)
 (* Invariants that TLC checks on the specification itself:                 *)
 (*   CopyOK     Copy of a fresh value of every shape shares no array or    *)
 (*              struct location with the original, allocates only, reads   *)
@@ -29,9 +29,9 @@
 (*              it predicts differently when that context's copy is        *)
 (*              skipped (so the scenario set can see a missing clone)      *)
 (*                                                                         *)
-(* Params (c07_params.json): seed, num, den (unit x context sampling:      *)
-(* num/den of the (shape, variant, context) triples, all when num = den),  *)
-(* variants, out.                                                          *)
+(* Params (c07_params.json): seed; num, den (num/den of the (shape,        *)
+(* variant, context) triples); rnum, rden (rnum/rden of the rows of a      *)
+(* chosen triple); everything when num = den and rnum = rden; variants; out*)
 (***************************************************************************)
 EXTENDS Store, Json, CSV
 
@@ -181,7 +181,7 @@ Ctxs(T) ==
     AL("addr_global", <<<<"new", "g", T, 10>>, <<"addr", "p", V("g")>>>>, V("g"), <<"p", <<D>>>>),
     AL("addr_global_fn", <<<<"new", "g", T, 10>>, <<"addr", "p", V("g")>>>>, V("g"), <<"p", <<D>>>>),
     [AL("addr_sub", <<NX, <<"addr", "p", <<"x", <<k1>>>>>>>>, <<"x", <<k1>>>>, <<"p", <<D>>>>) EXCEPT !.pt = sub1, !.ok = IsAgg(sub1)],
-    [AL("addr_leaf", <<NX>>, x, x) EXCEPT !.mp = "leafptr", !.same = FALSE, !.wsides = {}],
+    [AL("addr_leaf", <<NX>>, x, x) EXCEPT !.mp = "leafptr", !.wsides = {}],
     AL("subslice", <<<<"mksl", "s", T, 3, 3, 10>>, <<"sub", "t", V("s"), 1, 2, -1>>>>, <<"s", <<SL2>>>>, <<"t", <<SL1>>>>),
     AL("subslice3", <<<<"mksl", "s", T, 3, 3, 10>>, <<"sub", "t", V("s"), 1, 2, 2>>>>, <<"s", <<SL2>>>>, <<"t", <<SL1>>>>),
     AL("subslice_array", <<newA, <<"sub", "t", V("a"), 1, 2, -1>>>>, as2, <<"t", <<SL1>>>>),
@@ -244,10 +244,16 @@ RowsOf(cx) ==
   ELSE {<<sd, 0, pi>> : sd \in cx.sides, pi \in 1..Len(Paths(cx))} \cup {<<sd, 1, 0>> : sd \in cx.wsides}
 PathOf(cx, r) == IF r[2] = 1 THEN <<>> ELSE Paths(cx)[r[3]]
 
-\* sampling of (shape, variant, context) triples
+\* sampling: num/den of the (shape, variant, context) triples and, inside a chosen
+\* triple, rnum/rden of its rows (both chosen by a hash of the indices and the seed)
+Hash(n) == (n % 1000003)
 Pick(si, vi, ci) ==
   Params.num >= Params.den
-  \/ ((si * 7919 + vi * 104729 + ci * 1299709 + (Params.seed % 1000) * 104723) % 1000003) % Params.den < Params.num
+  \/ Hash(si * 7919 + vi * 104729 + ci * 1299709 + (Params.seed % 1000) * 104723) % Params.den < Params.num
+RowIdx(r) == r[3] * 4 + r[2] * 2 + (IF r[1] = "src" THEN 0 ELSE 1)
+PickRow(si, vi, ci, r) ==
+  Params.rnum >= Params.rden
+  \/ Hash(si * 7919 + vi * 104729 + ci * 1299709 + (Params.seed % 1000) * 104723 + RowIdx(r) * 15485863) % Params.rden < Params.rnum
 
 Half(s, k) == LET n == Len(s) \div 2 IN IF k = 1 THEN SubSeq(s, 1, n) ELSE SubSeq(s, n + 1, Len(s))
 
@@ -305,7 +311,7 @@ Next ==
      /\ LET cs == Ctxs(ShapeOf(unit)) IN cx' \in {ci \in 1..NCtx : Pick(unit[1], unit[2], ci) /\ cs[ci].ok}
      /\ UNCHANGED <<unit, row>>
   \/ /\ cx # 0 /\ row = NoRow
-     /\ row' \in RowsOf(CtxOf(unit, cx))
+     /\ row' \in {r \in RowsOf(CtxOf(unit, cx)) : PickRow(unit[1], unit[2], cx, r)}
      /\ UNCHANGED <<unit, cx>>
 Spec == Init /\ [][Next]_vars
 
@@ -320,10 +326,13 @@ CtxOK == (cx # 0 /\ row = NoRow) =>
   /\ RowsOf(c) # {}
   /\ (c.kind = "copy" /\ c.tags # {} => \E r \in RowsOf(c) : Scen(ShapeOf(unit), c, r).disc)
   /\ (c.same => LET st == Exec(c.pre, {}) IN SameStorage(st, c.src, c.dst))
+  /\ (c.mp = "leafptr" => \A pi \in 1..Len(Paths(c)) :
+        LET st == Exec(PreOf(c, Paths(c)[pi]), {}) IN SameStorage(st, <<"p", <<D>>>>, Ext(c.src, Paths(c)[pi])))
 
 \* one invariant per scenario state: the model-level checks, then (side effect) one JSON line
 RowOK(c, sc) == sc.ok /\ Visible(c, row, sc)
-UnitFile == OutFile \o "." \o ToString(unit[1]) \o "_" \o ToString(unit[2]) \o "_" \o ToString(cx) \o ".ndjson"
+\* one file per unit: lines are short (< 1 KB), appended with one write each
+UnitFile == OutFile \o "." \o ToString(unit[1]) \o "_" \o ToString(unit[2]) \o ".ndjson"
 Emit == (row # NoRow) =>
   LET c == CtxOf(unit, cx)
       sc == Scen(ShapeOf(unit), c, row)
